@@ -631,6 +631,8 @@ UPGRADER:
 				if p.headerValue == "" {
 					p.headerValue = string(data[start:i])
 				}
+				// a declared trailer with an empty value has been received too.
+				delete(p.trailer, p.headerKey)
 				p.Processor.OnTrailerHeader(p, p.headerKey, p.headerValue)
 				p.headerKey = ""
 				p.headerValue = ""
